@@ -947,6 +947,8 @@ def str_method(I, s, name, args, kw):
         return mk(z3.SuffixOf(z3_of(args[0]), st), 'bool')
     if name == 'split':
         return str_split(I, s, args, kw)
+    if name == 'rsplit':
+        return str_rsplit1(I, s, args, kw)
     if name == 'format':
         return I.ctx.fresh('fmt', 'str')
     if name in ('strip', 'lstrip', 'rstrip', 'lower', 'upper', 'replace', 'encode', 'title', 'capitalize'):
@@ -992,6 +994,26 @@ def str_split(I, s, args, kw):
         ctx.assume(z3.And(r == z3.Concat(b, sp, c), z3.InRe(b, nosep), z3.InRe(c, nosep)))
         return PList([mk(a, 'str'), mk(b, 'str'), mk(c, 'str')])
     raise Unsupported('split: more than two separators')
+
+
+def str_rsplit1(I, s, args, kw):
+    """s.rsplit(sep, 1) for a symbolic s and a concrete one-character sep: exact (the two parts are determined by
+    s == a + sep + r with no sep in r)"""
+    if len(args) != 2 or kw or not isinstance(args[0], str) or len(args[0]) != 1 or args[1] != 1:
+        raise Unsupported('rsplit other than rsplit(<1-char sep>, 1)')
+    sep = args[0]
+    ctx = I.ctx
+    st, sp, nosep = s.t, z3.StringVal(sep), nosep_re(sep)
+    key = ('rsplit', st.get_id(), sep)
+    if key in ctx.memo:
+        i = ctx.memo[key]
+    else:
+        i = ctx.memo[key] = ctx.choose([z3.InRe(st, nosep), z3.Contains(st, sp)], 'rsplit')
+    if i == 0:
+        return PList([s])
+    a, r = ctx.fresh('rsplit_head', 'str'), ctx.fresh('rsplit_tail', 'str')
+    ctx.assume(z3.And(st == z3.Concat(a.t, sp, r.t), z3.InRe(r.t, nosep)))
+    return PList([a, r])
 
 
 # split_before(s, sep) = s.split(sep)[0]   split_after(s, sep) = s.split(sep, 1)[1]   (when sep occurs in s)
